@@ -5,6 +5,8 @@ import (
 	"go/ast"
 	"go/token"
 	"go/types"
+	"golang.org/x/tools/go/packages"
+	"sort"
 	"strings"
 )
 
@@ -57,6 +59,66 @@ var mustCallTable = []mustCallEntry{
 }
 
 // matchMustCall reports which of the named effects a CFG node performs.
+// mustCallPk / mustCallDepth: the package whose helpers are followed by matchMustCall (set by the
+// rule for the function it analyses): a call to a function of the same package performs what that
+// function performs on every path to a normal exit.
+var mustCallPk *packages.Package
+var mustCallDepth int
+
+func calleeMustCalls(call *ast.CallExpr, names []string) []string {
+	pk := mustCallPk
+	if pk == nil || mustCallDepth >= 2 {
+		return nil
+	}
+	fn, ok := calleeOf(pk.TypesInfo, call).(*types.Func)
+	if !ok || fn.Pkg() != pk.Types {
+		return nil
+	}
+	fd := funcDeclOf(pk, fn)
+	if fd == nil || fd.Body == nil {
+		return nil
+	}
+	mustCallDepth++
+	defer func() { mustCallDepth-- }()
+	g := buildCFG(pk, fd.Body)
+	gen := func(nd ast.Node) []string {
+		var fs []string
+		for _, m := range matchMustCall(pk.TypesInfo, nd, names) {
+			fs = append(fs, "did:"+m)
+		}
+		return fs
+	}
+	var common map[string]bool
+	for _, ex := range mustFactsAtExits(g, gen, nil) {
+		if es, ok := ex.Last.(*ast.ExprStmt); ok {
+			if c2, ok := es.X.(*ast.CallExpr); ok && exprString(c2.Fun) == "panic" {
+				continue
+			}
+		}
+		cur := map[string]bool{}
+		for f := range ex.Facts {
+			if strings.HasPrefix(f, "did:") {
+				cur[strings.TrimPrefix(f, "did:")] = true
+			}
+		}
+		if common == nil {
+			common = cur
+		} else {
+			for k := range common {
+				if !cur[k] {
+					delete(common, k)
+				}
+			}
+		}
+	}
+	var out []string
+	for k := range common {
+		out = append(out, k)
+	}
+	sort.Strings(out)
+	return out
+}
+
 func matchMustCall(info *types.Info, n ast.Node, names []string) []string {
 	var out []string
 	add := func(s string) {
@@ -85,6 +147,11 @@ func matchMustCall(info *types.Info, n ast.Node, names []string) []string {
 				if strings.HasSuffix(fun, nm) {
 					add(nm)
 				}
+			}
+		}
+		if !isGo {
+			for _, m := range calleeMustCalls(call, names) {
+				add(m)
 			}
 		}
 	}
@@ -143,6 +210,7 @@ func ruleLifecycleCalls(c *Ctx) {
 		}
 		info := pk.TypesInfo
 		n++
+		mustCallPk, mustCallDepth = pk, 0
 		names := append([]string(nil), e.Calls...)
 		for _, o := range e.Order {
 			names = append(names, o[0], o[1])
@@ -173,7 +241,18 @@ func ruleLifecycleCalls(c *Ctx) {
 			if rs, ok := ex.Last.(*ast.ReturnStmt); ok && len(rs.Results) > 0 {
 				lastRes := rs.Results[len(rs.Results)-1]
 				if tv, ok := info.Types[lastRes]; ok && isErrorType(tv.Type) || exprString(lastRes) == "err" {
-					if id, isId := ast.Unparen(lastRes).(*ast.Ident); !isId || id.Name != "nil" {
+					switch y := ast.Unparen(lastRes).(type) {
+					case *ast.Ident:
+						if y.Name != "nil" {
+							continue
+						}
+					case *ast.CallExpr:
+						// an error being constructed is an error exit; `return x.Stop()` hands the outcome
+						// of the last step on and is a normal end of the function
+						if f := exprString(y.Fun); strings.HasSuffix(f, "Errorf") || strings.HasSuffix(f, ".New") || strings.HasSuffix(f, "NewError") || strings.HasSuffix(f, "Wrap") || strings.HasSuffix(f, "Join") {
+							continue
+						}
+					default:
 						continue
 					}
 				}
@@ -266,7 +345,6 @@ func ruleLifecycleCalls(c *Ctx) {
 	c.count("lifecycle_functions", n)
 	c.floor("lifecycle functions with must-call obligations", n, 24)
 }
-
 
 func containsNode(root, n ast.Node) bool {
 	return root != nil && n.Pos() >= root.Pos() && n.End() <= root.End()
